@@ -24,7 +24,7 @@ from harness.props import c20_expect as X
 from harness.props import c20_facts as T
 
 PROP = "C20"
-DRIVER_MODULES = ["PsutilModel.Model.C20Gen", "PsutilModel.Spec.C20"]
+DRIVER_MODULES = ["PsutilModel.Model.C20Gen", "PsutilModel.Spec.C20", "PsutilModel.Model.C20Block", "PsutilModel.Spec.C20Block"]
 NEEDS_EXT = False
 TRUSTED = [
     "C20 emulation (harness/props/c20_emul.py): alias import of the snapshot's psutil with sys.platform/os.name patched during the import only, stub native modules built from the C sources' PyMethodDef tables, scripted os/time/glob/subprocess proxies; the native layers themselves (C for other OSes) are NOT executed",
@@ -201,6 +201,11 @@ def facts(snap, F):
         return "[" + ", ".join(rows) + "]"
     F.try_add("zombieProbe", "List (String × String)", lean_zprobe,
               "per module: the comparison is_zombie(pid) makes on the status slot of the probe record: procStatuses (PROC_STATUSES.get(st) == _common.STATUS_ZOMBIE) | eq:<NAME> (st == cext.<NAME>) | none (module has no is_zombie)")
+
+    F.try_add("probeStale", "List (String × List String)",
+              lambda: "[" + ", ".join(T.lpair(lean_str(fam), lean_list(T.probe_stale_sources(tree(T.FAMILY_FILE[fam])), lean_str))
+                                      for fam in ("bsd", "osx", "sunos", "aix", "windows")) + "]",
+              "per module: every memoised function (memoize / memoize_when_activated) and every attribute of self other than pid / _name / _ppid that the except handlers of the module's wrap_exceptions* decorators can reach (call graph by name / attribute name, not entered past a memoised function): sources that can hold the answer of an EARLIER native call")
 
     F.try_add("frontBranches", "List (String × String)",
               lambda: lean_list(T.front_branches(tree("__init__.py")), lambda q: T.lpair(lean_str(q[0]), lean_str(q[1]))),
@@ -809,6 +814,143 @@ def judge_fault(c, impl, m, res):
         res.disagree("model", c, impl, m["model"], None, note="unexpected OSError subclass")
         return True
     return False
+
+
+# ---- seeded round 5 (C20-8): a oneshot() block as a history
+
+
+def block_profile(emu, pid=42):
+    """per public method, measured on the real module: (returns a value when called alone in a block?, does it read a
+    memoised one-shot record? — a second call in the same block makes FEWER native calls than the first, returns a value
+    when the pid is a zombie at that time?)"""
+    cache = getattr(emu, "_c20_block_profile", None)
+    if cache is not None:
+        return cache
+    prof = {}
+    for m in emu.process_methods():
+        if m in BLOCK_NOT_HISTORY:
+            continue
+        obs, hobs, tr, htr = emu.run_block([(m, "alive")], m, pid=pid)
+        if obs["kind"] != "value" or hobs[0]["kind"] != "value":
+            continue
+        obz, hobz, _, _ = emu.run_block([(m, "zombie")], m, pid=pid)
+        prof[m] = {"reads": len(tr) < len(htr[0]), "zombie_ok": hobz[0]["kind"] == "value"}
+    emu._c20_block_profile = prof
+    return prof
+
+
+# calls that change the process or wait for it: not used as EARLIER steps of a block (they are still final steps)
+BLOCK_NOT_HISTORY = {"kill", "suspend", "resume", "send_signal", "wait", "nice_set", "cpu_affinity_set", "ionice_set",
+                     "rlimit", "terminate"}
+BLOCK_ERRS_STRUCT = ("ESRCH", "ENOENT", "EPERM", "EIO")
+
+
+def _block_case(emu, hist, meth, k, call, ename, win, state, zcode, exited, part, pid=42):
+    return {"kind": "block", "ident": emu.ident, "history": [list(h) for h in hist], "meth": meth, "pid": pid, "k": k,
+            "call": call, "errno": ename, "winerror": win, "state": state, "zcode": zcode, "pid0": True,
+            "exited": exited, "part": part}
+
+
+def block_cases(emu, rng, n_random, exhaustive):
+    """The oneshot-block family: a HISTORY of calls on one Process object inside `oneshot()` (each with the pid state at
+    that time: alive or already a zombie), then a call whose native call #k fails while the pid is alive / zombie / gone.
+      structured  — history = EVERY record-reading method of the identity (all memoised records are filled), read while
+                    alive and read while a zombie × every method × every native call it still makes × 4 errnos × 3
+                    states, inside the block; and the same after oneshot_exit() for ESRCH;
+      exhaustive  — (identities in `exhaustive`) every ordered pair (one record-reading method, final method) × every
+                    call × ESRCH × every transition alive→{alive, zombie, gone}, zombie→{zombie, gone};
+      random      — 1–4 random earlier calls (readers and non-readers) with random states, random final call / error /
+                    state, inside or after the block."""
+    prof = block_profile(emu)
+    readers = sorted(m for m, v in prof.items() if v["reads"])
+    others = sorted(m for m, v in prof.items() if not v["reads"])
+    finals = emu.process_methods()
+    states = world_states(emu)
+
+    def points(hist, meth, exited):
+        obs, hobs, tr, htr = emu.run_block(hist, meth, exited=exited)
+        if any(h["kind"] != "value" for h in hobs):
+            return []
+        return [(k, c) for k, c in enumerate(tr) if c not in NO_FAULT]
+
+    for s0 in ("alive", "zombie"):
+        hist = [(m, s0) for m in readers if s0 == "alive" or prof[m]["zombie_ok"]]
+        if not hist:
+            continue
+        for meth in finals:
+            for exited in (False, True):
+                for k, call in points(hist, meth, exited):
+                    for ename in (BLOCK_ERRS_STRUCT if not exited else ("ESRCH",)):
+                        for state, zcode in states:
+                            yield _block_case(emu, hist, meth, k, call, ename, None, state, zcode, exited, "structured")
+    if emu.ident in exhaustive:
+        for r in readers:
+            for s0, nexts in (("alive", ("alive", "zombie", "gone")), ("zombie", ("zombie", "gone"))):
+                if s0 == "zombie" and not prof[r]["zombie_ok"]:
+                    continue
+                for meth in finals:
+                    for k, call in points([(r, s0)], meth, False):
+                        for s1 in nexts:
+                            yield _block_case(emu, [(r, s0)], meth, k, call, "ESRCH", None, s1, None, False, "exhaustive")
+    pool = readers + others
+    errs = swept_errs(emu)
+    for _ in range(n_random if pool else 0):
+        hist = []
+        for _i in range(rng.randint(1, 4)):
+            src = readers if readers and rng.random() < 0.6 else pool
+            m = src[rng.randrange(len(src))]
+            st = "zombie" if prof[m]["zombie_ok"] and rng.random() < 0.3 else "alive"
+            hist.append((m, st))
+        meth = finals[rng.randrange(len(finals))]
+        exited = rng.random() < 0.25
+        pts = points(hist, meth, exited)
+        if not pts:
+            continue
+        k, call = pts[rng.randrange(len(pts))]
+        ename, eno, win = errs[rng.randrange(len(errs))]
+        state, zcode = states[rng.randrange(len(states))]
+        yield _block_case(emu, hist, meth, k, call, ename, win, state, zcode, exited, "random")
+
+
+def run_block(emu, c):
+    eno = dict(ERRNOS)[c["errno"]]
+    obs, hobs, tr, htr = emu.run_block([tuple(h) for h in c["history"]], c["meth"], pid=c["pid"], fault_k=c["k"],
+                                       err=(eno, c["winerror"]), state=c["state"], pid0_listed=c["pid0"],
+                                       name=CACHED_NAME, ppid=CACHED_PPID, zcode=c.get("zcode"), exited=c["exited"])
+    cname, cppid = obs.pop("cached", (CACHED_NAME, CACHED_PPID))
+    if obs.get("psutil") and (cname, cppid) != (CACHED_NAME, CACHED_PPID):
+        # an earlier call of the history legitimately refreshed what the object caches (BSD ppid() stores the ppid it
+        # read): "carrying the pid and cached name" is judged against what the object holds when the failing call starts
+        obs = dict(obs, name=CACHED_NAME if obs.get("name") == cname else ("!" + str(obs.get("name"))))
+        if "ppid" in obs:
+            obs["ppid"] = CACHED_PPID if obs["ppid"] == cppid else ("!" + str(obs["ppid"]))
+    out = impl_outcome(obs)
+    out["sleeps"] = 0
+    if any(h["kind"] != "value" for h in hobs) or len(tr) <= c["k"] or tr[c["k"]] != c["call"]:
+        out = {"k": "trace-drift", "trace": tr[:8]}
+    return out
+
+
+def block_line(emu, c):
+    prof = block_profile(emu)
+    return {"op": "block", "zcode": c.get("zcode"), "plat": c["ident"], "meth": c["meth"], "call": c["call"],
+            "errno": c["errno"], "winerror": c["winerror"], "state": c["state"], "pid": c["pid"],
+            "pid0": model_pid0(c["ident"], c["pid"], c["state"], c["pid0"]), "exited": c["exited"],
+            "history": [{"reads": bool(prof.get(h[0], {}).get("reads")), "state": h[1]} for h in c["history"]]}
+
+
+def judge_block(c, impl, m, res):
+    if impl.get("k") == "trace-drift":
+        res.disagree("model", c, impl, m.get("model"), None,
+                     note="oneshot block: the history no longer returns / the last call no longer makes that native call")
+        return True
+    n0 = len(res.disagreements)
+    bad = judge_fault(c, dict(impl, sleeps=m.get("model", {}).get("sleeps", 0)), m, res)
+    for d in res.disagreements[n0:]:
+        d["note"] = "inside ONE oneshot() block, after %s%s: %s" % (
+            ", ".join("%s() [pid %s]" % (h[0], h[1]) for h in c["history"]),
+            " and oneshot_exit()" if c["exited"] else "", d.get("note", ""))
+    return bad
 
 
 # ---- values
@@ -1920,6 +2062,28 @@ def correspond(ctx, res):
             res.case(tuple(sorted((k, str(v)) for k, v in c.items())), nontrivial=True, sample=samp)
             judge_fault(c, impl, m, res)
     res.extra["empty_answer_cases"] = total_empty
+    # ---------------- a oneshot() block as a history (pid-state transitions between the first record read and the failing call)
+    total_block = 0
+    for ident in E.IDENTS:
+        emu = emus[ident]
+        bcs = list(block_cases(emu, ctx.rng, ctx.n(40, 400), ("macos", "openbsd") if ctx.tier == "quick" else E.IDENTS))
+        prof = block_profile(emu)
+        res.extra.setdefault("oneshot_block_record_readers", {})[ident] = sorted(m for m, v in prof.items() if v["reads"])
+        impls = [run_block(emu, c) for c in bcs]
+        outs = ctx.driver().batch([block_line(emu, c) for c in bcs]) if bcs else []
+        drv_lines += len(bcs)
+        for c, impl, m in zip(bcs, impls, outs):
+            total_block += 1
+            res.count("family:oneshot-block")
+            res.count("oneshot-block:" + c["part"])
+            res.count("oneshot-block:" + ident)
+            res.count("oneshot-block:after-exit" if c["exited"] else "oneshot-block:inside")
+            last = c["history"][-1][1]
+            res.count("oneshot-block:transition:%s->%s" % (last, c["state"]))
+            res.count("oneshot-block-impl:" + impl.get("k", "?"))
+            res.case(("block", ident, json.dumps(c, sort_keys=True)), nontrivial=True)
+            judge_block(c, impl, m, res)
+    res.extra["oneshot_block_cases"] = total_block
     # ---------------- values
     for ident in E.IDENTS:
         emu = emus[ident]
@@ -2049,6 +2213,12 @@ def _rerun(ctx, inp, res):
     kind = inp.get("kind")
     if kind == "emptyrun":
         return judge_emptyrun(emu, inp, run_emptyrun(emu, inp), res)
+    if kind == "block":
+        impl = run_block(emu, inp)
+        if impl.get("k") == "trace-drift":
+            return False
+        m = ctx.driver().batch([block_line(emu, inp)])[0]
+        return judge_block(inp, impl, m, res) and res.disagreements[-1]["kind"] == "spec"
     if kind in ("fault", "fault2"):
         impl = run_fault(emu, inp)
         if impl.get("k") == "trace-drift":
